@@ -38,6 +38,9 @@ type c16ConnInput struct {
 	// PerClient: the window size comes from the configuration GetConfigForClient returns for this client; the listener-wide
 	// configuration says 32
 	PerClient bool `json:"per_client,omitempty"`
+	// Tail: the application takes the first two bytes of a record with a short Read, then calls ReadFrom and Read in
+	// turn: the rest of that record must come out unchanged whatever arrives (and is fetched) in between
+	Tail bool `json:"tail,omitempty"`
 }
 
 type c16ConnObs struct {
@@ -152,11 +155,20 @@ func c16ConnRun(in c16ConnInput) (obs c16ConnObs, coqItems, coqOuts []string) {
 			return
 		}
 		buf := make([]byte, 4096)
-		for dp.Net.Now() < endAt {
+		for call := 0; dp.Net.Now() < endAt; call++ {
 			c.SetReadDeadline(time.Now().Add(endAt - dp.Net.Now() + c16Tick))
 			var n int
 			var err error
-			if in.ReadFrom {
+			if in.Tail {
+				switch {
+				case call == 0:
+					n, err = c.Read(buf[:2])
+				case call%2 == 1:
+					n, _, err = c.ReadFrom(buf)
+				default:
+					n, err = c.Read(buf)
+				}
+			} else if in.ReadFrom {
 				n, _, err = c.ReadFrom(buf)
 			} else {
 				n, err = c.Read(buf)
@@ -175,6 +187,37 @@ func c16ConnRun(in c16ConnInput) (obs c16ConnObs, coqItems, coqOuts []string) {
 	}
 	obs.Hung = dp.Run(cprog, sprog, 30*time.Second)
 	if obs.Err != "" {
+		return
+	}
+	if in.Tail {
+		// judged here: the pieces delivered, in order, are the genuine payloads with the first one's rest after the second
+		var want, gotS []string
+		gens := 0
+		for _, it := range in.Items {
+			if it.Kind == "gen" {
+				p := fmt.Sprintf("m%04d", it.I)
+				switch gens {
+				case 0:
+					want = append(want, p[:2])
+				case 1:
+					want = append(want, p, fmt.Sprintf("m%04d", in.Items[0].I)[2:])
+				default:
+					want = append(want, p)
+				}
+				gens++
+			}
+		}
+		for _, g := range log {
+			if g.err != "" {
+				gotS = append(gotS, "ERR:"+g.err)
+			} else {
+				gotS = append(gotS, g.pay)
+			}
+		}
+		obs.Outcomes = gotS
+		if strings.Join(gotS, "|") != strings.Join(want, "|") {
+			obs.Err = fmt.Sprintf("delivered %q, the peer's payloads in this call order are %q", gotS, want)
+		}
 		return
 	}
 	seqOf := map[string]uint64{}
@@ -226,6 +269,8 @@ func c16ConnAdd(out *emit.Out, scenario string, in c16ConnInput) {
 	direct := ""
 	if obs.Hung {
 		direct = "hang"
+	} else if obs.Err != "" && in.Tail {
+		direct = "delivered bytes that are not the peer's payload in order"
 	} else if obs.Err != "" {
 		direct = "setup: " + obs.Err
 	}
@@ -337,6 +382,12 @@ func c16ConnGen(out *emit.Out, p params, r *rand.Rand) error {
 		c16ConnAdd(out, "short-forged-records", in)
 		in.ReadFrom = !in.ReadFrom
 		c16ConnAdd(out, "short-forged-records", in)
+	}
+	// a short Read, then ReadFrom and Read in turn, with forged datagrams arriving in between
+	for k, su := range []uint16{0xe053, 0xe013} {
+		in := c16ConnInput{Suite: su, Window: 64, N: 10, JunkSeed: r.Uint64(), Tail: true,
+			Items: []c16Item{{Kind: "gen", I: 0}, {Kind: "junk", Len: 90}, {Kind: "short", I: 1, Len: 12}, {Kind: "gen", I: 1 + k}, {Kind: "flip", I: 3, Pos: 20, Mask: 1}, {Kind: "gen", I: 4}, {Kind: "gen", I: 5}}}
+		c16ConnAdd(out, "rest-of-a-record-across-readfrom", in)
 	}
 	// the window size set for this client by GetConfigForClient (64, 100, 160), not the listener-wide 32
 	for k, w := range []int{64, 100, 160} {
